@@ -17,6 +17,8 @@ from ..dataflow import Flow, chain, call_name
 from ..absint import Interp
 from ..link import check_module
 from ..poly import Poly, le, lt, eq
+from ..terms import Terms, reify, plain, match, V, ANY, show, subterms, \
+    mk_cmp, is_none, method_calls, alternatives, stores
 from ..util import calls_in, qual, formals, returns_of, raises_of, \
     raise_name, has_fact, parse_expr
 from .C07 import _loop_of, _backedge_preds
@@ -149,9 +151,23 @@ def r1_order(program, rep):
               "file's bytes to the system SDRAM buffer; the end packet "
               "carries the caller's app id and the wait flag",
               construct="data/end arguments", node=fn)
-    fg = [d for d in fl.defs if d.var == "flags" and d.mode == "aug"]
-    okw = len(fg) == 1 and unparse(fg[0].value.value) == "AppFlags.wait" and\
-        has_fact(fl.facts(fg[0].node), "kwargs.pop('wait')", True)
+    # the flags word of the end packet, by cases on the caller's ``wait``
+    TF = Terms(fn)
+    de_n = TF.cfg.node_containing(de)
+    pops = [c for c in calls_in(fn, "pop") if c.args and
+            isinstance(c.args[0], ast.Constant) and
+            c.args[0].value == "wait"]
+    okw = len(pops) == 1
+    if okw:
+        POP = TF.term(pops[0])
+        folder = Folder(program)
+        cf_ = _cf(folder, fn._module)
+        vals = []
+        for v in (True, False):
+            H = TF.under((POP, v))
+            vals.append(cf_(reify(plain(H.term(de.args[2], de_n)))))
+        okw = vals == [folder.name(CONSTS, "AppFlags").members["wait"].value,
+                       0]
     rep.check(okw, "C09-R1", inst, "the wait flag is set iff wait was asked "
               "for", construct="wait flag", node=fn)
     rep.floor("C09-R1", 8)
@@ -332,9 +348,12 @@ def r3_ids(program, folder, rep):
                if isinstance(n, ast.Attribute) and isinstance(n.ctx,
                                                               ast.Store)
                and chain(n) == "self._nn_id"]
-    rep.check(len(writers) == 2, "C09-R3", inst, "only __init__ and "
-              "_get_next_nn_id write the counter", construct="nn id "
-              "writers %d" % len(writers), node=fn)
+    from ..core import enclosing_def
+    wfns = sorted(set(getattr(enclosing_def(w), "name", "?")
+                      for w in writers))
+    rep.check(wfns == ["__init__", "_get_next_nn_id"], "C09-R3", inst,
+              "only __init__ and _get_next_nn_id write the counter",
+              construct="nn id writers %s" % wfns, node=fn)
     cfn = _cf(folder, fn._module)
     for m, argi, want in (
             ("_send_ffs", 4, [("pid", 16), ("n_blocks", 8)]),
@@ -378,9 +397,21 @@ def r3_ids(program, folder, rep):
                       "24 | id ; app id << 24 | flags << 18",
                       construct="ffe words %r / %r" % (l1, l2), node=call)
     f = program.get(CTRL + "._send_ffcs")
-    t = unparse(f)
-    rep.check("NNCommands.flood_fill_core_select << 24 | core_mask" in t and
-              "arg2 = region" in t, "C09-R3", qual(f), "core select = "
+    TS = Terms(f)
+    sc = calls_in(f, "_send_scp")
+    okf = len(sc) == 1
+    if okf:
+        from ..util import send_scp_terms
+        A = send_scp_terms(program, TS, sc[0])
+        fps = formals(f)
+        lay = provenance(reify(plain(A["arg1"])), cfn)
+        nn = folder.name(CONSTS, "NNCommands")
+        okf = [(p.src, p.dst_lo, p.src_lo) for p in lay.pieces] == [
+            (fps[2], 0, 0)] and lay.const == \
+            nn.members["flood_fill_core_select"].value << 24 and \
+            A.get("arg2") == ("param", fps[1]) and \
+            A.get("arg3") == ("param", fps[3])
+    rep.check(okf, "C09-R3", qual(f), "core select = "
               "command << 24 | core mask, with the region word",
               construct="ffcs words", node=f)
     rep.floor("C09-R3", 8)
@@ -439,31 +470,83 @@ def r4_retry(program, rep):
     rep.check(okn, "C09-R4", inst, "count mode: done iff the number of "
               "cores waiting under this app id equals the number of cores "
               "requested", construct="count mode", node=fn)
-    # per-core mode scoping
-    lps = [n for n in ast.walk(w) if isinstance(n, ast.For)]
-    by_target = {unparse(l.target): l for l in lps}
-    app_l = by_target.get("(app_name, targets)")
-    chip_l = by_target.get("((x, y), cores)")
-    core_l = by_target.get("p")
-    oks = app_l is not None and chip_l is not None and core_l is not None \
-        and _inside(chip_l, app_l) and _inside(core_l, chip_l) and \
-        unparse(app_l.iter) == "iteritems(unloaded)" and \
-        unparse(chip_l.iter) == "iteritems(targets)" and \
-        unparse(core_l.iter) == "cores"
+    # per-core mode: the map for the next attempt is rebuilt from the
+    # still-unloaded one, level by level, each level's container created
+    # afresh inside its own loop
+    T = Terms(fn)
+    from ..terms import SITES
+    SELF = ("param", "self")
+
+    def site_node(t):
+        return SITES.get(t[1]) if t[0] == "new" else None
+
+    def loop_of(node):
+        lp = node
+        while lp is not None and not isinstance(lp, (ast.For, ast.While)):
+            lp = getattr(lp, "_parent", None)
+        return lp
+    nxt = [b_ for b_ in T.binds if b_.mode == "assign" and
+           _inside(b_.node.ast, w) and b_.value is not None and
+           T._bind_term(b_)[0] == "new" and
+           T.built_map(T._bind_term(b_))]
+    # the rebinding of the still-unloaded map inside the loop
+    rebind = None
+    D3 = None
+    for b_ in T.binds:
+        if b_.mode == "assign" and _inside(b_.node.ast, w) and \
+                b_.value is not None and chain(b_.value) is not None:
+            t = T._bind_term(b_)
+            if t[0] == "new" and T.built_map(t) and any(
+                    x.var == b_.var and x.mode != "param" and
+                    not _inside(x.node.ast, w) for x in T.binds):
+                rebind, D3 = b_, t
+    oks = D3 is not None
+    s1 = s2 = s3 = oka = okk = False
+    if oks:
+        UNL = T.term(ast.Name(id=rebind.var, ctx=ast.Load()),
+                     T.cfg.loop_head[id(w)])
+        m3 = T.built_map(D3)
+        oks = len(m3) == 1 and m3[0][0] == ("items", UNL)
+    if oks:
+        E1 = ("elem", ("items", UNL))
+        it3, k3, D2, c3 = m3[0]
+        m2 = T.built_map(D2) if D2[0] == "new" else None
+        oks = k3 == ("comp", E1, 0) and bool(m2) and len(m2) == 1 and \
+            m2[0][0] == ("items", ("comp", E1, 1))
+    if oks:
+        E2 = ("elem", ("items", ("comp", E1, 1)))
+        it2, k2, S1, c2 = m2[0]
+        CORES = ("comp", E2, 1)
+        oks = k2 in (("comp", E2, 0),
+                     ("tuple", ("comp", ("comp", E2, 0), 0),
+                      ("comp", ("comp", E2, 0), 1)))
+        cores = T.filtered(S1)
+        oks = oks and bool(cores) and len(cores) == 1 and \
+            cores[0][0] == CORES
     rep.check(oks, "C09-R4", inst, "per-core mode walks the still-unloaded "
               "map: binaries, their chips, their cores",
               construct="verification walk", node=w)
     if oks:
-        def scope(var, inner, outer):
-            ds = [d for d in fl.defs if d.var == var and d.mode == "assign"]
-            return len(ds) == 1 and _inside(ds[0].node.ast, inner) and \
-                not _inside(ds[0].node.ast, outer)
-        s1 = scope("unloaded_cores", chip_l, core_l)
-        s2 = scope("unloaded_targets", app_l, chip_l)
-        s3 = scope("new_unloadeds", w, app_l)
+        app_l = loop_of(site_node(D2))
+        n3 = site_node(D3)
+        n2, n1 = site_node(D2), None
+        inner = S1
+        while inner[0] == "new" and inner[2][0] == "call" and \
+                inner[2][2] and inner[2][2][0][0] in ("new",):
+            inner = inner[2][2][0]
+        n1 = site_node(S1)
+        # loops, innermost first, enclosing the stores
+        st2 = [x for x in stores(T) if x[2] == D2]
+        st3 = [x for x in stores(T) if x[2] == D3]
+        chip_l = loop_of(st2[0][1]) if st2 else None
+        app_l = loop_of(st3[0][1]) if st3 else None
+        s1 = n1 is not None and chip_l is not None and _inside(n1, chip_l)
+        s2 = n2 is not None and app_l is not None and _inside(n2, app_l) \
+            and not _inside(n2, chip_l)
+        s3 = n3 is not None and _inside(n3, w) and not _inside(n3, app_l)
         rep.check(s1, "C09-R4", inst, "the set of still-unloaded cores is "
                   "started afresh for every chip",
-                  construct="unloaded_cores scope", node=chip_l,
+                  construct="unloaded_cores scope", node=chip_l or w,
                   fail="the set of still-unloaded cores is not re-created "
                        "for every chip: cores found unloaded on one chip "
                        "are also re-loaded (and started) on the chips "
@@ -472,32 +555,34 @@ def r4_retry(program, rep):
         rep.check(s2 and s3, "C09-R4", inst, "the per-binary and per-attempt "
                   "maps are started afresh for every binary / attempt",
                   construct="unloaded map scopes", node=w)
-        add = [c for c in calls_in(core_l, "add")]
-        oka = len(add) == 1 and unparse(add[0]) == "unloaded_cores.add(p)"
-        if oka:
-            f = fl.facts(cfg.node_containing(add[0]))
-            oka = has_fact(f, "state is not consts.AppState.wait", True)
-            st = fl.reaching("state", cfg.node_containing(add[0]))
-            oka = oka and len(st) == 1 and unparse(st[0].value) == \
-                "consts.AppState(self.read_vcpu_struct_field('cpu_state', " \
-                "x, y, p))"
+        CHIP = ("comp", E2, 0)
+        P_ = ("elem", CORES)
+        state = ("call", ("attr", ("global", "consts"), "AppState"),
+                 (("call", ("attr", SELF, "read_vcpu_struct_field"),
+                   (("const", "cpu_state"), ("comp", CHIP, 0),
+                    ("comp", CHIP, 1), P_), ()),), ())
+        WAIT = ("attr", ("attr", ("global", "consts"), "AppState"), "wait")
+        it1, e1, conds = cores[0]
+        oka = e1 == P_ and [(plain(c), p_) for c, p_ in conds] in (
+            [(mk_cmp("Is", state, WAIT), False)],
+            [(mk_cmp("Eq", state, WAIT), False)])
         rep.check(oka, "C09-R4", inst, "a core stays 'unloaded' iff its own "
                   "state (read at its x, y, p) is not 'wait'",
-                  construct="per-core test", node=core_l)
-        st1 = [s for s in ast.walk(chip_l) if isinstance(s, ast.Assign) and
-               unparse(s.targets[0]) == "unloaded_targets[x, y]"]
-        st2 = [s for s in ast.walk(app_l) if isinstance(s, ast.Assign) and
-               unparse(s.targets[0]) == "new_unloadeds[app_name]"]
-        okk = len(st1) == 1 and unparse(st1[0].value) == "unloaded_cores" \
-            and has_fact(fl.facts(cfg.node_of(st1[0])),
-                         "len(unloaded_cores) > 0", True) and \
-            len(st2) == 1 and unparse(st2[0].value) == "unloaded_targets" \
-            and has_fact(fl.facts(cfg.node_of(st2[0])),
-                         "len(unloaded_targets) > 0", True)
-        nd = [d for d in fl.defs if d.var == "unloaded" and
-              unparse(d.value) == "new_unloadeds"]
-        okk = okk and len(nd) == 1 and _inside(nd[0].node.ast, w) and \
-            not _inside(nd[0].node.ast, app_l)
+                  construct="per-core test", node=chip_l or w)
+
+        def nonempty(c, X):
+            if c is None:
+                return False
+            c, p_ = (c[1], False) if c[0] == "not" else (c, True)
+            return (c, p_) in ((X, True),
+                               (mk_cmp("Lt", ("const", 0),
+                                       ("call", ("global", "len"), (X,),
+                                        ())), True)) or \
+                (plain(c), p_) == (mk_cmp("Eq", ("call", ("global", "len"),
+                                                 (plain(X),), ()),
+                                          ("const", 0)), False)
+        okk = nonempty(c2, S1) and nonempty(c3, D2) and \
+            not _inside(rebind.node.ast, app_l)
         rep.check(okk, "C09-R4", inst, "the next attempt's map holds exactly "
                   "the chips/binaries with unloaded cores, keyed by their "
                   "own chip and binary", construct="recomputed map", node=w)
